@@ -104,6 +104,11 @@ def run(R):
     r8(R)
     r9(R)
     r10(R)
+    R.rule("C13-R11", "a prefixed name is split at its FIRST colon: every prefix expander (a function that looks a key up in a prefix map, the key "
+                      "being a piece of the term cut at `:`) cuts with split_once / splitn / find - none with rsplit_once / rsplitn / rfind. "
+                      "A local name may contain colons (`dbr:Category:Physics`); cutting at the last one looks up the undeclared prefix "
+                      "`dbr:Category` and stores the name unexpanded, so Turtle and N-Triples spellings of one triple load differently")
+    r11(R)
 
 
 def shared_dictionary(b, fam, prog, root_a, root_b):
@@ -698,3 +703,35 @@ def r10(R):
                  detail=None if not bad else "`%s` (the previous character) is compared with a backslash: `\"C:\\\\\"` ends with an escaped backslash, so its closing "
                  "quote is taken for an escaped one and everything after it is read with the in-literal state inverted" % bad[0][1])
     R.floor("C13-R10", "character scanners (functions that look for the quote character) in the loaders and writers", nscan, 4)
+
+
+
+def r11(R):
+    from c14 import const_text
+    prog = R.prog
+    FIRST = ("split_once", "splitn", "find", "split", "split_at", "strip_prefix", "char_indices", "position", "split_terminator")
+    LAST = ("rsplit_once", "rsplitn", "rfind", "rsplit", "rposition", "rsplit_terminator", "rmatch_indices")
+    n = 0
+    for k, b in sorted(prog.bodies.items()):
+        if b.crate != "kolibrie" or b.is_closure or is_test(b) or not (b.file.endswith("sparql_database.rs") or b.file.endswith("parser.rs") or b.file.endswith("utils.rs")):
+            continue
+        fam = prog.family(k)
+        # looks a prefix up: `get` on a HashMap<String, String>
+        looks = [c for x in fam for c in x.calls() if c.name() in ("get", "contains_key") and c.args and F.op_place(c.args[0]) is not None
+                 and "HashMap<alloc::string::String, alloc::string::String>" in x.local_ty(x.alias_root(c.args[0]) or 0)]
+        if not looks:
+            continue
+        cuts = []
+        for x in fam:
+            for c in x.calls():
+                if c.name() in FIRST + LAST and any(const_text(a) == ":" for a in c.args if a.get("k") == "const"):
+                    cuts.append((x, c))
+        if not cuts:
+            continue
+        n += 1
+        R.saw(b)
+        bad = [(x, c) for x, c in cuts if c.name() in LAST]
+        R.ob("C13-R11", "first-colon:" + b.name, "%s cuts the term at its first colon (cuts: %s)" % (b.name, sorted({c.name() for x, c in cuts})), not bad,
+             where=(bad[0][0].where(bad[0][1].ln) if bad else b.where()),
+             detail=None if not bad else "`%s(':')` takes everything up to the LAST colon as the prefix" % bad[0][1].name())
+    R.floor("C13-R11", "prefix expanders (prefix-map lookup keyed by a piece cut at `:`)", n, 2)
